@@ -19,6 +19,7 @@
 package main
 
 import (
+	"encoding/json"
 	"flag"
 	"fmt"
 	"os"
@@ -52,9 +53,26 @@ func main() {
 	kt := newKtrans(pkg)
 	kernels, notes := kt.emitKernels(kernelSpecs)
 	tie := kt.emitTie(kernelSpecs, notes)
+	type kernelReport struct {
+		Kernel     string   `json:"kernel"`
+		GoFunc     string   `json:"go_func"`
+		Properties []string `json:"properties"`
+		Translated bool     `json:"translated"`
+		Reason     string   `json:"reason,omitempty"`
+	}
+	var reports []kernelReport
 	for _, sp := range kernelSpecs {
+		r := kernelReport{Kernel: sp.name, GoFunc: sp.goFunc, Properties: sp.props, Translated: true}
 		if err, bad := notes[sp.name]; bad {
 			fmt.Printf("kernel %s: not translated: %v\n", sp.name, err)
+			r.Translated, r.Reason = false, err.Error()
+		}
+		reports = append(reports, r)
+	}
+	if js, err := json.MarshalIndent(reports, "", " "); err == nil {
+		if _, err := writeIfChanged(filepath.Join(*out, "kernels.json"), string(js)+"\n"); err != nil {
+			fmt.Fprintln(os.Stderr, "bstranslate:", err)
+			os.Exit(1)
 		}
 	}
 	for _, name := range []string{"Consts.v", "SilentGraph.v", "Kernels.v", "KernelTie.v"} {
